@@ -609,7 +609,7 @@ func routerRandSeg(r *Rng) string {
 	case c < 30:
 		return Pick(r, []string{"a", "b", "c"})
 	case c < 40:
-		return Pick(r, []string{"ab", "abc", "a*", "**", "x:y", "a:", "*a", ".", "..", "%2f", " "})
+		return Pick(r, []string{"ab", "abc", "a*", "**", "x:y", "a:", "*a", ".", "..", "%2f", " ", "%41", "a%2Fb", "%zz", "%", "%25", "a+b"})
 	case c < 50:
 		return Pick(r, []string{":x", ":y", ":id", ":", ":*", "::", ":/"})
 	case c < 58:
